@@ -29,9 +29,9 @@ def LabelsOK (h : GoMap) : Prop :=
 def IsNormal (a : GoVal) : Prop := (∃ v, a = .int .i64 v) ∨ (∃ b, a = .str b)
 
 theorem isNormal_of_normalize {x a : GoVal} (h : normalizeLabel x = some a) : IsNormal a := by
-  cases x <;> simp [normalizeLabel] at h
-  · exact Or.inl ⟨_, h.symm⟩
-  · exact Or.inr ⟨_, h.symm⟩
+  cases x <;> try (simp [normalizeLabel] at h; done)
+  · exact Or.inl ⟨_, normalizeLabel_int_eq_some h⟩
+  · simp [normalizeLabel] at h; exact Or.inr ⟨_, h.symm⟩
 
 /-- on normalised labels Go's `==` is equality -/
 theorem keyEq_iff_eq_of_normal {a b : GoVal} (ha : IsNormal a) (hb : IsNormal b) :
@@ -46,13 +46,13 @@ theorem keyEq_normalize_iff {x y a b : GoVal} (hx : normalizeLabel x = some a)
 /-- an integer or text key that is `==` to `l` *is* `l` -/
 theorem eq_of_keyEq_of_normalizes {k l : GoVal} (hk : normalizeLabel k ≠ none)
     (h : k.keyEq l = true) : k = l := by
-  cases k <;> simp [normalizeLabel] at hk <;> cases l <;> simp [GoVal.keyEq] at h
+  cases k <;> (try (simp [normalizeLabel] at hk; done)) <;> cases l <;> simp [GoVal.keyEq] at h
   · rw [h.1, h.2]
   · rw [h]
 
 theorem eq_of_keyEq_of_normalizes' {k l : GoVal} (hl : normalizeLabel l ≠ none)
     (h : k.keyEq l = true) : k = l := by
-  cases l <;> simp [normalizeLabel] at hl <;> cases k <;> simp [GoVal.keyEq] at h
+  cases l <;> (try (simp [normalizeLabel] at hl; done)) <;> cases k <;> simp [GoVal.keyEq] at h
   · rw [h.1, h.2]
   · rw [h]
 
@@ -354,7 +354,36 @@ theorem hasLabel_perm (h h' : GoMap) (hp : h.Perm h') (hok : LabelsOK h) (label 
 
 /-! ### 4 : the per-entry check consults the bucket only through `hasLabel` -/
 
+/-- in a bucket all of whose keys are labels, a value that is not a label (a `bool`, a `uint64`
+    above `math.MaxInt64`, …) is not found: the exact-key lookup `h[label]` can only hit a key,
+    and the scan over normalised keys is not reached (`normalizeLabel` refuses) -/
+theorem hasLabel_of_not_normalizes (h : GoMap) (hk : ∀ e ∈ h, normalizeLabel e.1 ≠ none)
+    (l : GoVal) (hl : normalizeLabel l = none) : hasLabel h l = false := by
+  unfold hasLabel lookupLabel
+  cases hlk : h.lookup l with
+  | some v =>
+    unfold GoMap.lookup at hlk
+    cases hf : h.find? (fun e => e.1.keyEq l) with
+    | none => rw [hf] at hlk; cases hlk
+    | some e =>
+      have he := List.mem_of_find?_eq_some hf
+      have hkq := List.find?_some hf
+      have hke := hk e he
+      rw [eq_of_keyEq_of_normalizes hke hkq] at hke
+      exact absurd hl hke
+  | none => simp [hl]
+
+/-- without the hypothesis on the keys the exact-key lookup does find such a value: a `uint64`
+    key above `math.MaxInt64` is a Go map key like any other -/
+theorem hasLabel_of_not_normalizes_needs_keys :
+    normalizeLabel (.int .u64 9223372036854775808) = none ∧
+    hasLabel [(.int .u64 9223372036854775808, .nil)] (.int .u64 9223372036854775808) = true := by
+  constructor
+  · simp [normalizeLabel, IntKind.wide, maxInt64]
+  · simp [hasLabel, lookupLabel, GoMap.lookup, GoVal.keyEq]
+
 theorem ensureCritical_congr (h h' : GoMap) (hh : ∀ l, normalizeLabel l ≠ none → hasLabel h l = hasLabel h' l)
+    (hk : ∀ e ∈ h, normalizeLabel e.1 ≠ none) (hk' : ∀ e ∈ h', normalizeLabel e.1 ≠ none)
     (v : GoVal) : ensureCritical v h = ensureCritical v h' := by
   unfold ensureCritical
   cases v with
@@ -362,22 +391,29 @@ theorem ensureCritical_congr (h h' : GoMap) (hh : ∀ l, normalizeLabel l ≠ no
     have hf : (fun l => (canInt l || canTstr l) && hasLabel h l)
         = (fun l => (canInt l || canTstr l) && hasLabel h' l) := by
       funext l
-      cases l <;> simp [canInt, canTstr] <;> apply hh <;> simp [normalizeLabel]
+      cases hn : normalizeLabel l with
+      | none =>
+        rw [hasLabel_of_not_normalizes h hk l hn, hasLabel_of_not_normalizes h' hk' l hn]
+      | some n => rw [hh l (by rw [hn]; simp)]
     simp only [hf]
   | _ => rfl
 
-/-- `checkParam` depends on the bucket only via `hasLabel` at normalisable labels -/
+/-- `checkParam` depends on the bucket only via `hasLabel` at normalisable labels (both buckets
+    having labels for keys — without that a `crit` entry of type `uint64` above `math.MaxInt64`
+    can hit a key exactly, see `hasLabel_of_not_normalizes_needs_keys`) -/
 theorem checkParam_congr (h h' : GoMap) (hh : ∀ l, normalizeLabel l ≠ none → hasLabel h l = hasLabel h' l)
+    (hk : ∀ e ∈ h, normalizeLabel e.1 ≠ none) (hk' : ∀ e ∈ h', normalizeLabel e.1 ≠ none)
     (prot : Bool) (l v : GoVal) : checkParam h prot l v = checkParam h' prot l v := by
   have h5 : hasLabel h (lbl 5) = hasLabel h' (lbl 5) := hh _ (by simp [lbl, normalizeLabel])
   have h6 : hasLabel h (lbl 6) = hasLabel h' (lbl 6) := hh _ (by simp [lbl, normalizeLabel])
   unfold checkParam
-  rw [h5, h6, ensureCritical_congr h h' hh v]
+  rw [h5, h6, ensureCritical_congr h h' hh hk hk' v]
 
 /-- 4. -/
 theorem checkParam_perm (h h' : GoMap) (hp : h.Perm h') (hok : LabelsOK h) (prot : Bool)
     (l v : GoVal) : checkParam h prot l v = checkParam h' prot l v :=
-  checkParam_congr h h' (fun l _ => hasLabel_perm h h' hp hok l) prot l v
+  checkParam_congr h h' (fun l _ => hasLabel_perm h h' hp hok l) hok.1
+    ((labelsOK_perm hp).mp hok).1 prot l v
 
 /-! ### 5 : MAIN — the verdict does not depend on Go's map iteration order -/
 
@@ -504,11 +540,50 @@ theorem respellCrit.normLabels_eq {h h' : GoMap} (hr : respellCrit h h') :
     normLabels h = normLabels h' :=
   Forall₂.map_eq hr (fun _ _ hab => hab.1)
 
-theorem canLabel_eq_isSome (l : GoVal) : (canInt l || canTstr l) = (normalizeLabel l).isSome := by
-  cases l <;> rfl
+/-- the entry test of `ensureCritical` (`canInt(label) || canTstr(label)`) accepts exactly the
+    labels that normalise, PROVIDED a text label is valid UTF-8 (`canTstr`, headers.go:730, looks
+    at the text; `normalizeLabel` passes any Go string: `case string: // no conversion`) and an
+    integer label is within int64 (`canInt` takes every Go integer; `normalizeLabel` refuses a
+    `uint` / `uint64` above `math.MaxInt64`) -/
+theorem canLabel_eq_isSome (l : GoVal) (hl : ∀ b, l = .str b → utf8Valid b = true)
+    (hi : ∀ k v, l = .int k v → v ≤ maxInt64) :
+    (canInt l || canTstr l) = (normalizeLabel l).isSome := by
+  cases l <;> try (simp_all [canInt, canTstr, normalizeLabel]; done)
 
-theorem ensureCritical_critRel (h h' : GoMap) (hn : normLabels h = normLabels h') (v v' : GoVal)
+/-- without the first hypothesis `canLabel_eq_isSome` fails: a text label that is not valid UTF-8
+    normalises (to itself) and is refused as a `crit` entry -/
+theorem canLabel_eq_isSome_counterexample :
+    (canInt (.str [0xff]) || canTstr (.str [0xff])) = false ∧
+    (normalizeLabel (.str [0xff])).isSome = true := by
+  refine ⟨?_, rfl⟩
+  simp [canInt, canTstr, utf8Valid]
+
+/-- without the second it fails the other way round: a `uint64` above `math.MaxInt64` passes the
+    type test of a `crit` entry and is not a label -/
+theorem canLabel_eq_isSome_counterexample_wide :
+    (canInt (.int .u64 9223372036854775808) || canTstr (.int .u64 9223372036854775808)) = true ∧
+    (normalizeLabel (.int .u64 9223372036854775808)).isSome = false := by
+  refine ⟨rfl, ?_⟩
+  simp [normalizeLabel, IntKind.wide, maxInt64]
+
+/-- the entry test does not depend on the Go integer type that spells a label: two text
+    labels with the same normal form are the same string -/
+theorem canLabel_congr_norm (a b : GoVal) (hab : normalizeLabel a = normalizeLabel b)
+    (ha : normalizeLabel a ≠ none) :
+    (canInt a || canTstr a) = (canInt b || canTstr b) := by
+  cases a <;> (try (simp [normalizeLabel] at ha; done)) <;> cases b <;>
+    (try rfl) <;> simp_all [canInt, canTstr, normalizeLabel]
+  all_goals (split at hab <;> simp_all)
+
+/-- a `crit` value and a re-spelt one get the same verdict, in buckets with the same normalised
+    labels all of whose keys are labels (what header validation checks first; without it the
+    exact-key lookup tells `crit [uint64(2^63)]` over a bucket with that very key from a
+    re-spelling: see `ensureCritical_critRel_needs_keys`) -/
+theorem ensureCritical_critRel (h h' : GoMap) (hn : normLabels h = normLabels h')
+    (hk : ∀ x ∈ normLabels h, x ≠ none) (v v' : GoVal)
     (hv : critRel v v') : ensureCritical v h = ensureCritical v' h' := by
+  have hk1 : ∀ e ∈ h, normalizeLabel e.1 ≠ none := (normLabels_all_some h).mp hk
+  have hk2 : ∀ e ∈ h', normalizeLabel e.1 ≠ none := (normLabels_all_some h').mp (hn ▸ hk)
   obtain ⟨ls, ls', rfl, rfl, hf⟩ := hv
   unfold ensureCritical
   simp only
@@ -519,11 +594,14 @@ theorem ensureCritical_critRel (h h' : GoMap) (hn : normLabels h = normLabels h'
     | @cons a b l l' hab _ ih =>
       rw [List.all_cons, List.all_cons, ih]
       congr 1
-      rw [canLabel_eq_isSome, canLabel_eq_isSome, ← hab]
       cases hna : normalizeLabel a with
-      | none => rfl
+      | none =>
+        rw [hasLabel_of_not_normalizes h hk1 a hna,
+          hasLabel_of_not_normalizes h' hk2 b (by rw [← hab, hna])]
+        simp
       | some n =>
-        rw [hasLabel_congr_norm h h' hn a b hab (by rw [hna]; simp)]
+        rw [canLabel_congr_norm a b hab (by rw [hna]; simp),
+          hasLabel_congr_norm h h' hn a b hab (by rw [hna]; simp)]
   have hemp : ls.isEmpty = ls'.isEmpty := by
     cases hf <;> rfl
   rw [hall, hemp]
@@ -535,19 +613,22 @@ theorem spelling_invariance_crit (h h' : GoMap) (hr : respellCrit h h') (prot : 
   have hhas : ∀ l, normalizeLabel l ≠ none → hasLabel h l = hasLabel h' l :=
     fun l hl => hasLabel_congr_norm h h' hn l l rfl hl
   have hiff : validateHeaderParameters h prot = true ↔ validateHeaderParameters h' prot = true := by
-    rw [validate_iff, validate_iff, labelsOK_iff_normLabels, labelsOK_iff_normLabels, hn]
-    refine and_congr Iff.rfl ?_
+    rw [validate_iff, validate_iff, labelsOK_iff_normLabels, labelsOK_iff_normLabels, ← hn]
+    refine and_congr_right ?_
+    intro hLab
+    have hk1 : ∀ e ∈ h, normalizeLabel e.1 ≠ none := (normLabels_all_some h).mp hLab.1
+    have hk2 : ∀ e ∈ h', normalizeLabel e.1 ≠ none := (normLabels_all_some h').mp (hn ▸ hLab.1)
     apply Forall₂.forall_iff hr
     intro e _ e' _ ⟨hlab, hval⟩
     rw [← hlab]
     rcases hval with hval | ⟨h2, hcr⟩
     · rw [← hval]
       constructor
-      · rintro ⟨l, h1, hc⟩; exact ⟨l, h1, by rw [← checkParam_congr h h' hhas]; exact hc⟩
-      · rintro ⟨l, h1, hc⟩; exact ⟨l, h1, by rw [checkParam_congr h h' hhas]; exact hc⟩
+      · rintro ⟨l, h1, hc⟩; exact ⟨l, h1, by rw [← checkParam_congr h h' hhas hk1 hk2]; exact hc⟩
+      · rintro ⟨l, h1, hc⟩; exact ⟨l, h1, by rw [checkParam_congr h h' hhas hk1 hk2]; exact hc⟩
     · have hc2 : checkParam h prot (.int .i64 2) e.2 = checkParam h' prot (.int .i64 2) e'.2 := by
         simp only [checkParam]
-        rw [ensureCritical_critRel h h' hn _ _ hcr]
+        rw [ensureCritical_critRel h h' hn hLab.1 _ _ hcr]
       constructor
       · rintro ⟨l, h1, hc⟩
         rw [h2] at h1; cases h1
@@ -569,6 +650,116 @@ theorem spelling_invariance (h h' : GoMap) (hr : respell h h') (prot : Bool)
     (_hcrit : ∀ e ∈ h, normalizeLabel e.1 ≠ some (.int .i64 2)) :
     validateHeaderParameters h prot = validateHeaderParameters h' prot :=
   spelling_invariance_strong h h' hr prot
+
+/-! ### 6b : text the library type-checks is text the decoder takes (valid UTF-8) -/
+
+/-- `canTstr` is: a Go string, valid UTF-8 (headers.go:730) -/
+theorem canTstr_iff (v : GoVal) : canTstr v = true ↔ ∃ b, v = .str b ∧ utf8Valid b = true := by
+  cases v <;> simp [canTstr]
+
+/-- a text `alg` (1), content type (3) or `typ` (16) that passes the per-label check is valid
+    UTF-8 -/
+theorem checkParam_text_utf8 (h : GoMap) (prot : Bool) (k : IntKind) (n : Int) (b : Bytes)
+    (hn : n = 1 ∨ n = 3 ∨ n = 16) (hc : checkParam h prot (.int k n) (.str b) = true) :
+    utf8Valid b = true := by
+  rcases hn with rfl | rfl | rfl <;>
+    simp [checkParam, canInt, canTstr, tstrOrUintOK] at hc <;> simp [hc]
+
+/-- every text entry of an accepted `crit` value is valid UTF-8 -/
+theorem ensureCritical_text_utf8 (h : GoMap) (ls : List GoVal)
+    (hc : ensureCritical (.arr ls) h = true) (b : Bytes) (hb : .str b ∈ ls) :
+    utf8Valid b = true := by
+  simp only [ensureCritical, Bool.and_eq_true, List.all_eq_true] at hc
+  have := (hc.2 _ hb).1
+  simpa [canInt, canTstr] using this
+
+/-- MAIN (repair e13966b): in a bucket that passes `validateHeaderParameters`, a text `alg`,
+    content type or `typ` and every text `crit` entry is valid UTF-8 — what the decoder demands
+    of every text string -/
+theorem validate_text_utf8 (h : GoMap) (prot : Bool)
+    (hv : validateHeaderParameters h prot = true) :
+    (∀ e ∈ h, ∀ n b, normalizeLabel e.1 = some (.int .i64 n) → (n = 1 ∨ n = 3 ∨ n = 16) →
+        e.2 = .str b → utf8Valid b = true) ∧
+    (∀ e ∈ h, ∀ ls b, normalizeLabel e.1 = some (.int .i64 2) → e.2 = .arr ls → .str b ∈ ls →
+        utf8Valid b = true) := by
+  obtain ⟨_, hall⟩ := (validate_iff h prot).mp hv
+  constructor
+  · intro e he n b hl hn hval
+    obtain ⟨l, h1, h2⟩ := hall e he
+    rw [hl] at h1; cases h1
+    rw [hval] at h2
+    exact checkParam_text_utf8 h prot _ n b hn h2
+  · intro e he ls b hl hval hb
+    obtain ⟨l, h1, h2⟩ := hall e he
+    rw [hl] at h1; cases h1
+    rw [hval] at h2
+    simp only [checkParam, Bool.and_eq_true] at h2
+    exact ensureCritical_text_utf8 h ls h2.2 b hb
+
+/-! ### 6c : integer labels are within int64 (repair 0eeddbc) -/
+
+/-- a Go integer (a value of its type: `v ≤ k.hi`) that `normalizeLabel` takes is at most
+    `math.MaxInt64` -/
+theorem le_maxInt64_of_normalizes {k : IntKind} {v : Int} (hhi : v ≤ k.hi)
+    (hn : normalizeLabel (.int k v) ≠ none) : v ≤ maxInt64 := by
+  cases hw : k.wide with
+  | true =>
+    rw [Ne, normalizeLabel_int_eq_none] at hn
+    simp only [hw, true_and] at hn
+    omega
+  | false =>
+    cases k <;> simp at hw <;> simp only [IntKind.hi, maxInt64] at * <;> omega
+
+/-- MAIN: every integer key of a bucket that passes `validateHeaderParameters` (the key being a
+    value of its Go type) lies within int64 and is its own label: nothing is wrapped any more, so
+    the label checked for duplicates and for `crit` is the label the encoder writes, and one the
+    decoder accepts -/
+theorem validate_labels_int64 (h : GoMap) (prot : Bool)
+    (hv : validateHeaderParameters h prot = true) (e : GoVal × GoVal) (he : e ∈ h)
+    (k : IntKind) (v : Int) (hl : e.1 = .int k v) (hlo : k.lo ≤ v) (hhi : v ≤ k.hi) :
+    (-9223372036854775808 ≤ v ∧ v ≤ 9223372036854775807) ∧
+      normalizeLabel e.1 = some (.int .i64 v) := by
+  have hn := (validate_labels h prot hv).1 e he
+  rw [hl] at hn ⊢
+  have hle := le_maxInt64_of_normalizes hhi hn
+  have hge : (-9223372036854775808 : Int) ≤ v := by
+    cases k <;> simp only [IntKind.lo] at hlo <;> omega
+  simp only [maxInt64] at hle
+  refine ⟨⟨hge, by omega⟩, ?_⟩
+  rw [normalizeLabel_int_of_le k (by simp only [maxInt64]; omega)]
+  have : wrap64 v = v := by
+    unfold wrap64
+    simp only
+    split <;> omega
+  rw [this]
+
+/-- … and so does every integer entry of an accepted `crit` value (in a bucket whose keys are
+    labels, which validation checks on the way) -/
+theorem ensureCritical_int64 (h : GoMap) (hk : ∀ e ∈ h, normalizeLabel e.1 ≠ none)
+    (ls : List GoVal) (hc : ensureCritical (.arr ls) h = true) (k : IntKind) (v : Int)
+    (hm : .int k v ∈ ls) (hhi : v ≤ k.hi) : v ≤ maxInt64 := by
+  simp only [ensureCritical, Bool.and_eq_true, List.all_eq_true] at hc
+  have hh := (hc.2 _ hm).2
+  apply le_maxInt64_of_normalizes hhi
+  intro hn
+  rw [hasLabel_of_not_normalizes h hk _ hn] at hh
+  cases hh
+
+/-- `SetType` takes a text `typ` only if it is valid UTF-8 -/
+theorem setType_text_utf8 (h h' : GoMap) (b : Bytes) (hs : setType h (.str b) = .ok h') :
+    utf8Valid b = true := by
+  unfold setType at hs
+  cases hu : utf8Valid b with
+  | true => rfl
+  | false => simp [canTstr, canUint, hu] at hs
+
+/-- `SetCWTClaims` takes text `iss` / `sub` claims only if they are valid UTF-8 -/
+theorem setCWTClaims_text_utf8 (h h' claims : GoMap) (n : Int) (hn : n = 1 ∨ n = 2) (v : GoVal)
+    (hl : claims.lookup (.int .i n) = some v) (hs : setCWTClaims h claims = .ok h') :
+    ∃ b, v = .str b ∧ utf8Valid b = true := by
+  rw [← canTstr_iff]
+  unfold setCWTClaims at hs
+  rcases hn with rfl | rfl <;> simp [hl] at hs <;> cases hc : canTstr v <;> simp_all
 
 end C13
 
@@ -890,13 +1081,14 @@ theorem wrap64_eq_of_encInt_eq {v v' : Int} (h : encInt v = encInt v') : wrap64 
 /-- labels that encode alike normalise alike -/
 theorem label_enc_inj (cfg : EncCfg) {x y a b : GoVal} (hx : normalizeLabel x = some a)
     (hy : normalizeLabel y = some b) (he : encodeAny cfg x = encodeAny cfg y) : a = b := by
-  cases x <;> simp only [normalizeLabel, Option.some.injEq, reduceCtorEq] at hx <;>
-  cases y <;> simp only [normalizeLabel, Option.some.injEq, reduceCtorEq] at hy <;>
-  subst hx hy <;> simp only [encodeAny, Option.some.injEq] at he
-  · rw [wrap64_eq_of_encInt_eq he]
+  cases x <;> (try (simp [normalizeLabel] at hx; done)) <;>
+  cases y <;> (try (simp [normalizeLabel] at hy; done)) <;>
+  simp only [encodeAny, Option.some.injEq] at he
+  · rw [normalizeLabel_int_eq_some hx, normalizeLabel_int_eq_some hy, wrap64_eq_of_encInt_eq he]
   · exact absurd he (encInt_ne_encTstr _ _)
   · exact absurd he.symm (encInt_ne_encTstr _ _)
-  · rw [encTstr_inj he]
+  · simp only [normalizeLabel, Option.some.injEq] at hx hy
+    rw [← hx, ← hy, encTstr_inj he]
 
 end HeadersDeep
 
